@@ -65,7 +65,8 @@ def wire_check(prop, tier, seed, replay=None):
         ncells = json.load(open(table))['ncells']
         binp = C.build_harness('wirefam', work)
         env = dict(VERIF_TABLE=table, VERIF_SEED=str(seed), VERIF_VARIANTS='4',
-                   VERIF_RANDOM='150' if tier == 'quick' else '3000', VERIF_BATCHES='120' if tier == 'quick' else '2500')
+                   VERIF_RANDOM='150' if tier == 'quick' else '30000', VERIF_BATCHES='120' if tier == 'quick' else '25000',
+                   VERIF_PATLEN='4' if tier == 'quick' else '6')
         if replay:
             env['VERIF_REPLAY_INPUT'] = json.load(open(replay))['input']
         results, crashes = run_shards(binp, 'TestWire', work, C.NCPU, env)
@@ -81,9 +82,9 @@ def wire_check(prop, tier, seed, replay=None):
         samples = [s for r in results for s in (r.get('samples') or [])][:6]
         return finish(prop, tier, seed, t0, 'model_checking', ncells, results, crashes, violations,
                       rule='every cell of the single-member product Ver x Id x Method x Params x Extra (%d cells, evaluated by TLC from spec/Wire.tla) concretised into byte strings '
-                           '(key order / whitespace variants), sent to a real Server with AllowPush off and on and given to ParseRequests; plus random batches of 2-3 members, '
+                           '(key order / whitespace variants), sent to a real Server with AllowPush off and on and given to ParseRequests; plus random batches of 2-3 members, every composition of member verdict classes of length 2..4 (thorough: as far as 40000 patterns go), '
                            'envelope cases and seeded mutations; distinct_nontrivial = abstract cells replayed' % ncells,
-                      samples=samples, extra=dict(verdict_classes=classes, batches=sum(r.get('batches', 0) for r in results), mutated=sum(r.get('random', 0) for r in results)),
+                      samples=samples, extra=dict(verdict_classes=classes, class_patterns=max(r.get('patterns', 0) for r in results) if results else 0, aborted_shards=sum(1 for r in results if r.get('aborted')), batches=sum(r.get('batches', 0) for r in results), mutated=sum(r.get('random', 0) for r in results)),
                       trusted=['concretisation templates and the generic-JSON response validator in harness/wirefam', 'TLC evaluation of spec/Wire.tla'])
     finally:
         shutil.rmtree(work, ignore_errors=True)
